@@ -119,13 +119,24 @@ class Tags:
             return self.field_env.get(e.id)
         tags = set()
         for d in real:
-            if d.value is not None and isinstance(d.value, (ast.Name, ast.Attribute)) \
-                    and not d.sel and d.node != nid:
-                t = self.field_tag(d.value, d.node)
-                if t is None:
-                    t = STEP
-            else:
-                t = STEP
+            t = STEP
+            if d.value is not None and not d.sel and d.node != nid and \
+                    not isinstance(d.value, ast.Call):
+                # a copy / selection of other field values carries their tag
+                inner = set()
+                for x in walk_local(d.value):
+                    if isinstance(x, (ast.Name, ast.Attribute)) and dotted(x) and \
+                            "field" in dotted(x).split(".")[-1] and x is not d.value or \
+                            (x is d.value and isinstance(x, (ast.Name, ast.Attribute))):
+                        if isinstance(x, ast.Name) and not [dd for dd in self._name_defs(x.id, d.node)
+                                                            if dd.sel != (("param",),)] \
+                                and x.id not in self.field_env:
+                            continue        # an input value (initial field): no constraint
+                        ti = self.field_tag(x, d.node)
+                        if ti is not None:
+                            inner.add(ti)
+                if len(inner) == 1:
+                    t = inner.pop()
             if self._crosses_back_edge(d.node, nid) or d.node == nid:
                 t = self._shift(t)
             tags.add(t)
